@@ -91,6 +91,17 @@ def flat_shapes(n, topkind='pure'):
         yield {'tree': S('top', 0, nodes, k=topkind), 'thash': 'asc'}
 
 
+def sparse_shapes(n, max_edges, topkind='pure'):
+    """all labelled DAGs on n nodes with at most max_edges edges"""
+    pairs = [(i, j) for i in range(n) for j in range(n) if i != j]
+    for r in range(max_edges + 1):
+        for edges in itertools.combinations(pairs, r):
+            if _acyclic(n, edges):
+                nodes = [J(TOPN[i], i) for i in range(n)]
+                _set_reqs(nodes, edges)
+                yield {'tree': S('top', 0, nodes, k=topkind), 'thash': 'asc'}
+
+
 def nest_shapes(p, q, positions=None, outer_dags=None, inner_dags=None,
                 topkind='pure'):
     """parent with p nodes, the one at `pos` being a nested scheduler with q
